@@ -240,6 +240,11 @@ class JumpToStageHandler(StabilizeHandler[JumpToStage]):
             # Merge jump context into target stage
             if message.jump_context:
                 target_stage.context.update(message.jump_context)
+                # Values handed over with the jump are the stage's own from now
+                # on: re-planning must not drop them as stale inherited copies.
+                inherited = target_stage.context.get("_inherited_keys")
+                if inherited:
+                    target_stage.context["_inherited_keys"] = [k for k in inherited if k not in message.jump_context]
 
             # Make jump outputs available via special context key
             if message.jump_outputs:
